@@ -72,8 +72,12 @@ func flipBit(b []byte, i int) []byte {
 // buildVerify builds the arguments of one VerifyRequest call of class q /
 // variant v for client c and reports what is true of the request.
 func buildVerify(w *attWorld, r *rand.Rand, c, q, variant string, bit int) (req type3.RateLimitedTokenRequest, blind, clientKey []byte, sigOK, keyOK, ckeyOK bool) {
+	var mkSecret func(secret, blind []byte) type3.RateLimitedTokenRequest
 	mk := func(client string, blind []byte) type3.RateLimitedTokenRequest {
-		cl := type3.NewRateLimitedClientFromSecret(w.secret(client))
+		return mkSecret(w.secret(client), blind)
+	}
+	mkSecret = func(secret, blind []byte) type3.RateLimitedTokenRequest {
+		cl := type3.NewRateLimitedClientFromSecret(secret)
 		iss := w.issuer
 		if iss == nil {
 			iss = sharedAttIssuer()
@@ -92,6 +96,11 @@ func buildVerify(w *attWorld, r *rand.Rand, c, q, variant string, bit int) (req 
 	blind = randScalar(r)
 	clientKey = clientPublic(w.secret(c))
 	req = mk(c, blind)
+	if bit%2 == 1 {
+		// the request object has been marshalled before (its encoding cache is
+		// filled), as a request that was sent or logged would be
+		req.Marshal()
+	}
 	sigOK, keyOK, ckeyOK = true, true, true
 	switch q {
 	case "good":
@@ -129,6 +138,8 @@ func buildVerify(w *attWorld, r *rand.Rand, c, q, variant string, bit int) (req 
 			blind = randScalar(r)
 		case "wrong-client": // a consistent request of another client presented under c's key
 			req = mk(otherClient(c), blind)
+		case "negated-client": // a consistent request of the client whose secret is N - d: its blinded key is the negation
+			req = mkSecret(negScalar(w.secret(c)), blind)
 		case "blind-plus-n": // the same blind plus the group order: another integer
 			blind = randScalar(r)
 		}
@@ -272,6 +283,16 @@ func execAttester(c *ctx, in ev) []ev {
 		case "F":
 			o, a := s["o"].(string), s["a"].(string)
 			blind := randScalar(r)
+			switch r.Intn(12) { // edge encodings of the request blind
+			case 0:
+				blind = bytes.Repeat([]byte{0xff}, 48) // >= N
+			case 1:
+				blind = new(bigInt).Add(elliptic.P384().Params().N, new(bigInt).SetInt64(int64(5+r.Intn(1000)))).Bytes()
+			case 2:
+				blind[0], blind[1] = 0, 0 // leading zero bytes
+			case 3:
+				blind = append([]byte{0x01}, blind...) // 49 bytes
+			}
 			secret := w.secret(cn)
 			var brk []byte
 			if full {
@@ -370,7 +391,7 @@ func genAttester(c *ctx, emit func(ev)) {
 		{"badsig", "flip-sig", 768}, {"badsig", "flip-reqkey", 392}, {"badsig", "flip-namekeyid", 256}, {"badsig", "flip-enc", 3000},
 		{"badsig", "short-sig", 96}, {"badsig", "long-sig", 2}, {"badsig", "zero-sig", 1}, {"badsig", "otherkey-sig", 2},
 		{"badsig", "othercontents", 2}, {"badsig", "swap-rs", 1},
-		{"badkey", "wrong-blind", 3}, {"badkey", "wrong-client", 3},
+		{"badkey", "wrong-blind", 4}, {"badkey", "wrong-client", 4}, {"badkey", "negated-client", 4},
 		{"badcky", "short", 1}, {"badcky", "offcurve", 1}, {"badcky", "empty", 1}, {"badcky", "uncompressed-prefix", 1},
 	}
 	for _, v := range variants {
@@ -411,3 +432,11 @@ func genAttester(c *ctx, emit func(ev)) {
 }
 
 var _ = sha512.New384
+
+func negScalar(d []byte) []byte {
+	N := elliptic.P384().Params().N
+	v := new(bigInt).Sub(N, new(bigInt).SetBytes(d))
+	out := make([]byte, 48)
+	v.FillBytes(out)
+	return out
+}
